@@ -253,7 +253,7 @@ def run(rep: vlib.Reporter, tier: str, seed: int) -> None:
                             rep.finding("C09-flight-store-leak", f"{r['new_keys']} dataset(s) left in the Flight store", replay)
                         if r["status"] == "raised" and fail is None and r["exc"] and "not found" in r["exc"] and "Table with key" in r["exc"]:
                             dist["premature_drop_errors"] += 1
-                            if planner_kf or kf_mp_transform_non_arrow(plan):
+                            if planner_kf:      # (the MULTIPROCESSING transform-from-non-Arrow domain is repaired: 3c9d46c)
                                 rep.finding("C09-missing-dataset-in-defect-domains", r["exc"], replay)
                             else:
                                 rep.finding(f"premature-drop:{key}", f"a step needed a dataset that is not in the store: {r['exc']}", replay)
